@@ -10,7 +10,7 @@ import (
 )
 
 func init() {
-	register(&PropCheck{ID: "C10", Pkgs: []string{"./domainset", "./portset", "./prefixset", "./router", "./cmd/shadowsocks-go-domain-set-converter"}, Run: runC10})
+	register(&PropCheck{ID: "C10", AnchorsInlined: true, KeepCalls: []string{"portset.PortSet.add", "portset.PortSet.addRange"}, Pkgs: []string{"./domainset", "./portset", "./prefixset", "./router", "./cmd/shadowsocks-go-domain-set-converter"}, Run: runC10})
 }
 
 func runC10(p *Prog, r *Report) {
